@@ -216,6 +216,8 @@ type c20State struct {
 	Status  string
 	Index   string
 	Tree    string
+	// Store is everything under .git except the index (object store, packed-refs, config, logs…)
+	Store world.Snapshot
 }
 
 func (g *c20Repo) state() c20State {
@@ -244,8 +246,12 @@ func (g *c20Repo) state() c20State {
 	st.Status = g.git("status", "--porcelain=v1", "-uall")
 	st.Index = g.git("ls-files", "-s")
 	snap, _ := world.Snap(g.dir)
+	st.Store = world.Snapshot{}
 	for k := range snap {
 		if k == ".git" || strings.HasPrefix(k, ".git/") {
+			if k != ".git/index" {
+				st.Store[k] = snap[k]
+			}
 			delete(snap, k)
 		}
 	}
@@ -409,6 +415,15 @@ func evalC20(c *core.Ctx, cs c20Case, id string) Outcome {
 			}
 			if before.Status != after.Status || before.Index != after.Index || before.Tree != after.Tree {
 				return mk(i, "worktree-or-index-changed", trig, "index and work tree unchanged", fmt.Sprintf("status %q → %q", before.Status, after.Status))
+			}
+			// a dry run performs no repository mutation at all: not in the object store either
+			if dry {
+				if d := world.Diff(before.Store, after.Store); len(d) > 0 {
+					if len(d) > 6 {
+						d = append(d[:6], fmt.Sprintf("… %d more", len(d)-6))
+					}
+					return mk(i, "dry-run-mutated-the-repository", trig, "nothing under .git changes in a dry run", fmt.Sprint(d))
+				}
 			}
 			// a ref "changed" when its own object id changed, or it appeared or disappeared. A
 			// non-tag ref whose object id is unchanged but for which git now reports a peeled
